@@ -245,15 +245,27 @@ def _record(ctx, exe, rd, plan, parts=6, timeout=2400):
         if h.san:
             last = next((e for e in reversed(ev) if e.get("e") == "Case"), {})
             ctx.violation("PCA:spectral:%s" % h.san, "sanitizer report in case %s:\n%s" % (last, h.err[:1500]), dict(kind="case", case=last))
-        if h.timed_out:
-            raise InfraError("c02 harness timed out")
-        if h.rc != 0 and not h.san:
+        # a fit that hangs outside the NIPALS loops (no iteration budget) on a changed tree ends as a time-out / watchdog: not a verdict (machine load looks the
+        # same), but it must not pre-empt one either - deferred like the vacuity findings (_deferred_infra), the complete recorded cases are still judged
+        deferred = ctx.steps.setdefault("_deferred_infra", [])
+        if h.rc != 0 and not h.san and not h.timed_out:
             raise InfraError("c02 harness failed rc=%d\n%s" % (h.rc, h.err[-800:]))
-        if not any(e.get("e") == "Summary" for e in ev):
-            raise InfraError("c02 harness wrote no Summary")
-        if any(e.get("e") == "Abort" and e.get("why") == "watchdog" for e in ev):
-            raise InfraError("c02 harness: wall-clock watchdog fired without the iteration budget (machine load)")
-        chunks.append([e for e in ev if e.get("e") != "Summary"])
+        done = any(e.get("e") == "Summary" for e in ev)
+        blocks = tlc.split_blocks([e for e in ev if e.get("e") != "Summary"]) if ev else []
+        if h.timed_out:
+            deferred.append("c02 harness timed out")
+        elif not done:
+            if not h.san:
+                raise InfraError("c02 harness wrote no Summary")
+        if not done and blocks:
+            blocks = blocks[:-1]              # the case that was running when the harness process ended
+        if any(e.get("e") == "Abort" and e.get("why") == "watchdog" for b in blocks for e in b):
+            deferred.append("c02 harness: wall-clock watchdog fired without the iteration budget (machine load)")
+            blocks = [b for b in blocks if not any(e.get("e") == "Abort" and e.get("why") == "watchdog" for e in b)]
+        if blocks:
+            chunks.append([e for b in blocks for e in b])
+    if not chunks:
+        raise InfraError("c02 harness recorded no complete case (%s)" % "; ".join(ctx.steps.get("_deferred_infra", [])[:2]))
     return chunks
 
 
@@ -532,7 +544,9 @@ def _binding_jobs(ctx, chunks):
         tests.append(("binding_reuse_error", PROP, exte, field("Reuse", "perr", lambda v: [2000000000] * len(v))))
     for nm, cfg, evs, cor in tests:
         if not evs:
-            raise InfraError("c02: no recorded block for self-test %s" % nm)
+            # (cases that die on a changed tree leave a class of blocks empty: judged after the trace validation, like the other vacuity findings)
+            ctx.steps.setdefault("_deferred_infra", []).append("c02: no recorded block for self-test %s" % nm)
+    tests = [t for t in tests if t[2]]
 
     jobs = [(lambda t=t: trace.binding_selftest(ctx, "TracePcaSpectral", t[1], t[2], t[3], t[0])) for t in tests]
     def sandwich():
